@@ -22,6 +22,8 @@ tolerance of 1e-30 (far below the 1e-12 that double precision would need) otherw
 
 from __future__ import annotations
 
+import os
+
 import itertools
 import json
 import math
@@ -729,7 +731,7 @@ def check_reference(col, rec):
 INVARIANTS = ["AdjugateLaw", "KJIsIdentity", "JKProjector", "GramIsDetSquared", "Equidistant", "RadiusIsDistance", "TriangleRadius",
               "DiameterIsLongestEdge", "CellNormalLaw", "CoordinateLaw", "FacetNormalLaw", "UnitNormal", "VolumeIsAreaTimesHeight",
               "FacetInverseLaw", "FacetJacobianIsJTimesCFJ", "PiolaNormal", "RidgeIsJTimesCRJ", "ValueShape", "EmitCell"]
-JAVA = "-DTLA-Library=/verif/spec -Xmx2g -Xmn128m -XX:ParallelGCThreads=2 -Dtlc2.tool.queue.IStateQueue=StateDeque"
+JAVA = "-DTLA-Library=" + os.path.join(os.path.dirname(os.path.dirname(os.path.dirname(os.path.abspath(__file__)))), "spec") + " -Xmx2g -Xmn128m -XX:ParallelGCThreads=2 -Dtlc2.tool.queue.IStateQueue=StateDeque"
 
 
 class Job:
